@@ -26,13 +26,14 @@ EXHAUSTIVE = (
     "{constant, earlier parameter, outer variable}, plus the vectors with one default naming its own parameter (outer "
     "variable of that name absent and present) among constants, x the 8 subsets of {varargs, kwargs, caller} used by the body x 0-5 "
     "positional arguments x every set of <= 3 keyword names from {p0, p1, p2, zz} x 7 call shapes (plain, *list, **dict, "
-    "both, **dict repeating an explicit keyword, call block, Python call through template.module), sync environment"
+    "both, **dict repeating an explicit keyword, call block, Python call through template.module), sync environment; plus "
+    "the same with the unknown keyword named self (<= 2 parameters) and arguments / args (<= 1 parameter)"
 )
 RULE = (
     "itertools enumeration sliced over 16 shards of signature (0-4 parameters; quick 0-3) x default kinds per trailing "
     "default (<= 3; full product over constant / earlier parameter / outer variable, plus one self-naming default p=p "
     "among constants, with and without an outer variable of that name) x body uses of varargs/kwargs/caller x 0-5 positional x keyword-name sets (<= 4 of {p0..p3, zz}; quick "
-    "<= 3 of {p0..p2, zz}) x call shape (plain, star, dstar, both, dup, call block, python) x environment (thorough adds the "
+    "<= 3 of {p0..p2, zz}; the unknown name zz also spelled self for <= 2 parameters and arguments / args for <= 1) x call shape (plain, star, dstar, both, dup, call block, python) x environment (thorough adds the "
     "async environment for the template shapes and, in the sync environment, one more step: 5 parameters, 6 positionals, "
     "keyword p4); each call rendered and compared with the binding specification. "
     "Non-trivial = the call has surplus positionals, an unknown or already-filled keyword, an evaluated default that refers "
@@ -52,11 +53,15 @@ ASSUMPTIONS = [
     "a parameter name inside a default expression denotes the macro's parameter, which is undefined while unfilled, and "
     "never an outer variable of that name (tests/test_core_tags.py::TestMacros::test_macro_defaults_self_ref pins this "
     "shadowing); in particular it is never an internal sentinel",
+    "the unknown keyword is also generated under the names self, arguments and args (they collide with Python-level "
+    "names of the runtime's Macro but are ordinary extra keywords for the template: kwargs or TypeError); a parameter "
+    "DECLARED as self and an explicit caller= keyword are not generated (undocumented)",
     "source-level duplicate keywords (m(a=1, a=2)) belong to C01/F20 and are never generated; parameters named "
     "caller/varargs/kwargs are not generated",
 ]
 
 SHAPES = ["plain", "star", "dstar", "both", "dup", "call", "py"]
+EXTRA_KW_NAMES = [("self", 2), ("arguments", 1), ("args", 1)]
 TYPEERROR = "<TypeError>"
 
 
@@ -241,6 +246,7 @@ def check_case(case):
     labels = ["shape_" + case["shape"], "env_" + case["env"], "np_%d" % case["np"],
               "out_typeerror" if expected == TYPEERROR else "out_text"]
     labels += ["nt_" + r for r in sorted(reasons)]
+    labels += ["kw_" + k for k in case["kw"] if k in ("self", "arguments", "args")]
     return core.Outcome(bool(reasons), labels)
 
 
@@ -259,7 +265,11 @@ def _bounds(tier):
 def all_cases(tier):
     b = _bounds(tier)
     uses_all = ["".join(c for c, on in zip("vkc", bits) if on) for bits in itertools.product((0, 1), repeat=3)]
-    kwsets = [list(c) for r in range(b["max_kw"] + 1) for c in itertools.combinations(b["kwnames"], r)]
+    kwsets = [(list(c), 99) for r in range(b["max_kw"] + 1) for c in itertools.combinations(b["kwnames"], r)]
+    # the unknown keyword also under names that collide with Python-level parameter names of the runtime
+    # (Macro.__call__(self, *args, **kwargs), Macro.arguments): (name, largest signature it is crossed with)
+    for name, lim in EXTRA_KW_NAMES:
+        kwsets += [([name if k == "zz" else k for k in kws], lim) for kws, _ in list(kwsets) if "zz" in kws]
     for np_ in range(b["max_np"] + 1):
         for nd in range(min(np_, b["max_nd"]) + 1):
             vectors = ["".join(v) for v in itertools.product("ceo", repeat=nd)]
@@ -269,7 +279,9 @@ def all_cases(tier):
                     continue  # p0 has no earlier parameter
                 for uses in uses_all:
                     for npos in range(b["max_pos"] + 1):
-                        for kws in kwsets:
+                        for kws, np_lim in kwsets:
+                            if np_ > np_lim:
+                                continue
                             for shape in SHAPES:
                                 if shape == "dup" and not kws:
                                     continue
@@ -293,7 +305,8 @@ def run_shard(spec_, ctx):
 def floors(total, tier):
     lab = total.labels
     need = ["shape_" + s for s in SHAPES] + ["out_typeerror", "out_text", "nt_surplus_pos", "nt_unknown_kw",
-                                            "nt_filled_kw", "nt_default_earlier", "nt_default_self", "nt_starargs", "nt_callblock"]
+                                            "nt_filled_kw", "nt_default_earlier", "nt_default_self", "nt_starargs", "nt_callblock", "kw_self", "kw_arguments",
+                                            "kw_args"]
     low = [n for n in need if lab.get(n, 0) < 500]
     if low:
         return "classes below floor 500: %s" % ", ".join(low)
